@@ -44,7 +44,7 @@ ASSUMPTIONS = [
 RULE = ("kernel cases: every (N, L) with N <= 40 (quick) / 80 (thorough) incl. L > N and negative L; discs for rows/cols 1..24 "
         "(quick) and sampled up to 80; generator cases: return_acs and mask with the same seed, every generator x mode; "
         "non-trivial = 1 <= L < N (kernels) / a returned ACS with at least one sample (generators); distinct = distinct protocol line")
-PENDING_FINDINGS: list[str] = ["acs-not-subset-VariableDensityPoisson/crop_corner"]
+PENDING_FINDINGS: list[str] = []
 EXTRA_LEAN_MODULES = ['DirectVerif.Lemmas.C04List', 'DirectVerif.Lemmas.C06Assemble', 'DirectVerif.Lemmas.C06Seed',
                       'DirectVerif.Lemmas.C06Round']
 
@@ -221,7 +221,7 @@ VDP_CROP_KEY = "acs-not-subset-VariableDensityPoisson/crop_corner"
 
 
 def poisson_crop_cases(ctx: Ctx):
-    """one VariableDensityPoisson frame as the code assembles it — `(raster | disc) & (r < 1)` when `crop_corner` —
+    """one VariableDensityPoisson frame as the code assembles it — `(raster & (r < 1)) | disc` when `crop_corner` —
     against the model (`Model/C06Crop.lean`); the real mask itself stands for the raster; the model also says whether
     the ACS disc is a subset of the frame"""
     rng = ctx.rng
@@ -309,7 +309,7 @@ def check_acs(spec: dict, acs: dict, mask: dict, pair=None):
     if any(a & ~m for a, m in zip(A, M)):
         lost = sum(bin(a & ~m).count("1") for a, m in zip(A, M))
         if name == "VariableDensityPoisson" and spec.get("extra", {}).get("crop_corner"):
-            # finding on the current tree: `poisson` crops the corners AFTER OR-ing the disc, return_acs returns the whole disc
+            # the pinned tree's defect (repaired in 2480376): `poisson` cropped the corners AFTER OR-ing the disc
             yield VDP_CROP_KEY, (f"{name} crop_corner=True, shape {shape}, centre fraction {cf}: {lost} cell(s) of the ACS disc lie outside "
                                  f"the inscribed ellipse and are cropped out of the sampling mask (same seed), not out of the ACS")
         else:
@@ -720,7 +720,7 @@ def oracle(ctx: Ctx, deep: bool = False):
                 yield Violation(key, f"{name}: {got} ACS columns, requested {G.num_low_freqs(name, cols, cf)} capped by the budget "
                                 f"round({cols}/{acc}) = {target} -> expected {want}",
                                 {"op": "magic-cap", "spec": spec, "expected": want, "observed": got})
-    # (1c) the recorded finding, on its minimal configuration (so that it is reported on every run, not by chance)
+    # (1c) the repaired crop_corner defect on its minimal configuration (regression test on every run, not by chance)
     acs, mask = run(dict(VDP_CROP_WITNESS, return_acs=True)), run(VDP_CROP_WITNESS)
     ctx.count(("vdp-crop-witness",), True, bucket="oracle/VariableDensityPoisson/crop-corner-witness")
     for key, what in check_acs(VDP_CROP_WITNESS, acs, mask):
